@@ -30,7 +30,7 @@ const char *target_name = "mt";
 enum { L_SWITCH_IN_POST, L_SWITCH_OWNER_DETACH, L_CROSS_POST, L_SELF_POST, L_POST_FROM_HANDLER, L_UNREG_PENDING, L_TWO_OWNERS, L_POOL,
        L_SUBMIT_ALL_BUSY, L_SUBMIT_IDLE_EXPIRED, L_SUBMIT_BEFORE_FIRST_RUN, L_CONTINUATION, L_PUT_WHILE_BUSY, L_PUT_WHILE_STARTING, L_PUT_WHILE_IDLE,
        L_IDLE_TIMEOUT_DEATH, L_IVTHREAD, L_IVTHREAD_NODEINIT, L_IVTHREAD_PEXIT, L_M0, L_M1, L_M2, L_M3, L_RAW_KICK, L_EVENTFD_FALLBACK,
-       L_FD_UNREG_IN_EVENT, L_POOL_REUSE, L_SUBMIT_FROM_COMPLETION, L_TIME_PASSED_10S, L_BURST, L_RAW_CROSS_POST, L_RAW_BIG_BURST, L_LOCAL_WORK, L_PUT_FROM_COMPLETION, L_IVTHREAD_CREATE_FAILS };
+       L_FD_UNREG_IN_EVENT, L_POOL_REUSE, L_SUBMIT_FROM_COMPLETION, L_TIME_PASSED_10S, L_BURST, L_RAW_CROSS_POST, L_RAW_BIG_BURST, L_LOCAL_WORK, L_PUT_FROM_COMPLETION, L_IVTHREAD_CREATE_FAILS, L_POOL_CREATE_FAILS, L_EVENT_REG_EMFILE };
 
 #define FAILP(prop, tag, ...) vz_fail(prop, tag, __VA_ARGS__)
 static void fail_any(const char *tag, const char *fmt, ...)
@@ -84,6 +84,8 @@ struct owner {
 static struct owner own[MAXOWN];
 static int nown, nposters, posters_done;
 static int cfg_method;
+static int eventfd_mode;   /* 0 eventfd2, 1 old eventfd, 2 pipe */
+static __thread int emfile_armed;   /* eventfd2() of this thread fails with EMFILE */
 
 struct item { struct iv_work_item w; int id, submitted, work_runs, comp_runs, work_thread, work_returned, is_cont, local; };
 static struct item items[MAXITEM]; static int nitems;
@@ -107,8 +109,8 @@ static void act_timer_cb(void *cookie);
 static void ev_register(struct owner *o, int i)
 {
 	struct mev *e = &o->ev[i];
-	e->iv = malloc(sizeof *e->iv); memset(e->iv, 0xA5, sizeof *e->iv);
-	IV_EVENT_INIT(e->iv);
+	if (e->iv) vz_log("[T%d] (same struct as before, not initialised again)", sched_self());   /* kept by ev_unregister */
+	else { e->iv = malloc(sizeof *e->iv); memset(e->iv, 0xA5, sizeof *e->iv); IV_EVENT_INIT(e->iv); }
 	e->iv->cookie = e; e->iv->handler = ev_handler;
 	e->owner = (int)(o - own); e->idx = i;
 	if (iv_event_register(e->iv)) fail_any("event-register-failed", "iv_event_register failed");
@@ -122,6 +124,8 @@ static void ev_unregister(struct owner *o, int i)
 	vz_log("[T%d] owner%d: unregister event %d", sched_self(), e->owner, i);
 	e->registered = 0;
 	iv_event_unregister(e->iv);
+	/* "must have been initialised by IV_EVENT_INIT" - once: the caller may keep the struct and register it again as it is */
+	if (!own[e->owner].shutdown_done && ch_n(3) == 0) return;
 	memset(e->iv, 0x5A, sizeof *e->iv); free(e->iv); e->iv = NULL;
 }
 static void ev_post(struct mev *e)
@@ -209,8 +213,11 @@ static void fd_handler(void *cookie)
 {
 	struct mfd *f = cookie;
 	if (!f->registered) { FAILP("C01", "callback-after-unregister", "fd handler ran after iv_fd_unregister returned"); fail_any("fd-callback-not-registered", "fd handler of unregistered fd ran"); }
-	char buf[256]; ssize_t r = read(f->fd, buf, sizeof buf); (void)r;
+	char buf[256]; ssize_t r = read(f->fd, buf, sizeof buf);
 	vz_log("[T%d] fd handler fd=%d", sched_self(), f->fd);
+	/* only this handler ever reads the pipe: if nothing is there, the kernel cannot have reported this descriptor readable */
+	if (r < 0 && errno == EAGAIN) { FAILP("C03", "not-ready-at-poll", "fd handler ran for descriptor %d, which has never been readable since it was registered", f->fd);
+					FAILP("C01", "stale-batch-entry", "fd handler ran for descriptor %d on behalf of a batch entry collected for its struct's previous registration", f->fd); }
 }
 static void fd_register(struct owner *o, int k)
 {
@@ -231,6 +238,24 @@ static void fd_unregister(struct owner *o, int k)
 	iv_fd_unregister(f->iv);
 	memset(f->iv, 0x5A, sizeof *f->iv); free(f->iv); f->iv = NULL;
 	close(f->fd); close(f->peer);
+}
+
+/* the same struct iv_fd moves on to another descriptor (from an event handler, possibly while an entry for the old
+ * registration sits in the batch being processed) */
+static void fd_move(struct owner *o, int k)
+{
+	struct mfd *f = &o->fds[k];
+	vz_log("[T%d] owner: fd %d unregistered, same struct re-registered on a new pipe", sched_self(), f->fd);
+	f->registered = 0;
+	iv_fd_unregister(f->iv);
+	close(f->fd); close(f->peer);
+	int p[2]; if (pipe(p) < 0) vz_inconclusive("pipe");
+	f->fd = p[0]; f->peer = p[1];
+	fcntl(f->peer, F_SETFL, O_NONBLOCK);
+	if (ch_n(2)) IV_FD_INIT(f->iv);
+	f->iv->fd = f->fd; f->iv->cookie = f; f->iv->handler_in = fd_handler;
+	iv_fd_register(f->iv);
+	f->registered = 1;
 }
 
 /* ------------------------------------------------------------------ work pool */
@@ -302,7 +327,17 @@ static void submit_item(int cont_of, int local)
 	vz_hash_u(0x400 + it->is_cont * 2 + local);
 	if (local) { vz_label(L_LOCAL_WORK); iv_work_pool_submit_work(NULL, &it->w); }
 	else if (it->is_cont) { vz_label(L_CONTINUATION); iv_work_pool_submit_continuation(pool, &it->w); }
-	else iv_work_pool_submit_work(pool, &it->w);
+	else {
+		/* out of threads at the moment the pool wants a worker: the item stays queued, and the next submission tries again
+		 * (made right here, so that "every submitted item completes" remains what the pool promises) */
+		int inject = sched_self() == own[0].slot && nitems < MAXITEM && items_budget > 0 && ch_n(8) == 0;
+		if (inject) sched_fail_next_create = 1;
+		iv_work_pool_submit_work(pool, &it->w);
+		if (inject) {
+			if (sched_fail_next_create) sched_fail_next_create = 0;       /* no worker was wanted */
+			else { vz_label(L_POOL_CREATE_FAILS); vz_log("[T%d] (worker creation failed: EAGAIN)", sched_self()); submit_item(-1, 0); }
+		}
+	}
 }
 static void work_fn(void *cookie)
 {
@@ -378,6 +413,7 @@ static void owner_shutdown(struct owner *o)
 	while (o->inflight > 0) sched_yield_to_others("wait-inflight-posts");   /* ... and the ones under way must return before the events go away */
 	vz_log("[T%d] owner%d shuts down", sched_self(), (int)(o - own));
 	for (int i = 0; i < MAXEV; i++) if (o->ev[i].registered) ev_unregister(o, i);
+	for (int i = 0; i < MAXEV; i++) if (!o->ev[i].registered && o->ev[i].iv) { free(o->ev[i].iv); o->ev[i].iv = NULL; }
 	for (int i = 0; i < MAXRAW; i++) if (o->raw[i].registered) raw_unregister(o, i);
 	for (int k = 0; k < 2; k++) if (o->fds[k].registered) fd_unregister(o, k);
 	for (int k = 0; k < 3; k++) if (o->act_busy[k]) { iv_timer_unregister(&o->act_timer[k]); o->act_busy[k] = 0; }
@@ -425,7 +461,7 @@ static void owner_actions(struct owner *o, int nmax)
 		case 4: sched_point("action-yield"); break;
 		case 5: if (oi == 0) submit_item(-1, 0); break;
 		case 6: if (oi == 0 && pool_alive && !pool_put_called && ch_n(3) == 0) pool_put(); break;
-		case 7: if (oi == 0) { int f = ch_n(2); if (o->fds[f].registered) { vz_label(L_FD_UNREG_IN_EVENT); fd_unregister(o, f); } } break;
+		case 7: if (oi == 0) { int f = ch_n(2); if (o->fds[f].registered) { vz_label(L_FD_UNREG_IN_EVENT); if (ch_n(2)) fd_move(o, f); else fd_unregister(o, f); } } break;
 		case 8: if (oi == 0 && ch_n(2)) create_child(); break;
 		case 9: { /* do more at a generated virtual time */
 			arm_act_timer(o); } break;
@@ -451,6 +487,19 @@ static void owner_setup(struct owner *o)
 	int oi = (int)(o - own);
 	o->slot = sched_self();
 	o->budget = 20 + ch_n(60);
+	if (cfg_method >= 2 && eventfd_mode == 0 && ch_n(4) == 0) {
+		/* the process is out of descriptors when this thread registers its first event (raw-event kick transport): the call
+		 * fails and must leave the thread as it was, later registrations and cross-thread posts work as usual */
+		struct iv_event *tmp = malloc(sizeof *tmp); memset(tmp, 0xA5, sizeof *tmp);
+		IV_EVENT_INIT(tmp); tmp->cookie = NULL; tmp->handler = ev_handler;
+		emfile_armed = 1;
+		int r = iv_event_register(tmp);
+		emfile_armed = 0;
+		vz_log("[T%d] owner%d: first iv_event_register with eventfd2 -> EMFILE returned %d", sched_self(), oi, r);
+		vz_label(L_EVENT_REG_EMFILE);
+		if (r == 0) fail_any("event-register-fault-ignored", "iv_event_register succeeded although its kick descriptor could not be created");
+		free(tmp);
+	}
 	for (int i = 0; i < 3; i++) ev_register(o, i);         /* stop + 2 shared */
 	if (ch_n(2)) ev_register(o, 3);
 	if (ch_n(2)) raw_register(o, 0);
@@ -523,10 +572,10 @@ static int hook_wait_block(struct vk_wait *w)
 	return sched_block_wait(w);
 }
 static void hook_epoll_ctl_pre(int epfd, int op, int fd) { (void)epfd; (void)op; (void)fd; sched_point("epoll_ctl"); }
-static int eventfd_mode;   /* 0 eventfd2, 1 old eventfd, 2 pipe */
 static int hook_sysfault(int sys, unsigned long k)
 {
 	(void)k;
+	if (sys == VKS_EVENTFD2 && emfile_armed) return EMFILE;
 	if (sys == VKS_EVENTFD2 && eventfd_mode >= 1) return eventfd_mode == 1 ? EINVAL : ENOSYS;
 	if (sys == VKS_EVENTFD && eventfd_mode >= 2) return ENOSYS;
 	return 0;
